@@ -63,7 +63,6 @@ let () =
     if not okv then begin
       let cls =
         if not agrees then None
-        else if class_zero_metric !chunks then Some "zero-metric-chunk"
         else if class_lone_empty_key !chunks then Some "lone-empty-key"
         else if class_key_crlf !chunks then Some "key-crlf"
         else None in
